@@ -11,7 +11,11 @@ import (
 	"sort"
 	"strings"
 
+	"golang.org/x/tools/go/ssa"
+
+	"jsverif/internal/prog"
 	"jsverif/internal/scanfsm"
+	"jsverif/internal/ssaeval"
 )
 
 const stackK = 6
@@ -353,57 +357,148 @@ func (c *Ctx) ruleC12Grammar(m *scanfsm.Machine) {
 	r.Stats["c12_grammar_configs"] = a.Configs
 }
 
-// checkPairs reads the accepted (start,end) pairs from processLexemeEvent.
+// checkPairs decides, for every begin kind on the event stack and every end kind arriving, whether
+// processLexemeEvent yields a lexeme or an error: the function is evaluated abstractly (internal/ssaeval) with the two
+// event types as constants, the stack's Pop modelled by the begin event; how the comparison is written (one condition,
+// a helper, a switch, a table of constants) does not matter.
 func (c *Ctx) checkPairs(m *scanfsm.Machine) {
 	r := c.R
-	pk := c.P.Pkg("scanner")
 	f := c.P.LookupFunc("scanner", "Scanner.processLexemeEvent")
-	d := c.P.Decl(f)
-	if d == nil {
+	if f == nil {
 		r.Undecided("C12-PAIRS", "processLexemeEvent", "function not found", "")
 		return
 	}
-	pairs := map[string]string{}
-	ast.Inspect(d.Body, func(n ast.Node) bool {
-		be, ok := n.(*ast.BinaryExpr)
-		if !ok || be.Op != token.LAND {
-			return true
-		}
-		l, ok1 := ast.Unparen(be.X).(*ast.BinaryExpr)
-		rr, ok2 := ast.Unparen(be.Y).(*ast.BinaryExpr)
-		if !ok1 || !ok2 || l.Op != token.EQL || rr.Op != token.EQL {
-			return true
-		}
-		cn := func(e ast.Expr) string {
-			if id, ok := ast.Unparen(e).(*ast.Ident); ok {
-				if k, ok := pk.TypesInfo.Uses[id].(*types.Const); ok {
-					return k.Name()
-				}
-			}
-			return ""
-		}
-		a, b := cn(l.Y), cn(rr.Y)
-		if a != "" && b != "" {
-			pairs[a] = b
-		}
-		return true
-	})
-	nb := 0
-	for ev, kind := range m.EventKinds {
-		if !strings.HasPrefix(kind, "begin:") {
-			continue
-		}
-		nb++
-		k := strings.TrimPrefix(kind, "begin:")
-		end := pairs[ev]
-		if end != "" && m.EventKinds[end] == "end:"+k {
-			r.Ok("C12-PAIRS", "pair "+ev, "paired with "+end, c.P.Pos(d.Pos()))
-		} else {
-			r.Bad("C12-PAIRS", "pair "+ev, fmt.Sprintf("processLexemeEvent pairs %s with %q, the model pairs by kind %s", ev, end, k), c.P.Pos(d.Pos()))
+	where := ""
+	if d := c.P.Decl(f); d != nil {
+		where = c.P.Pos(d.Pos())
+	}
+	sf := c.P.SSAFunc(f)
+	scanPk := c.P.Pkg("scanner")
+	evT := c.P.LookupType("scanner", "LexemeEvent")
+	if sf == nil || scanPk == nil || evT == nil {
+		r.Undecided("C12-PAIRS", "processLexemeEvent", "no SSA form / LexemeEvent type", where)
+		return
+	}
+	st, _ := evT.Type().Underlying().(*types.Struct)
+	typeField := -1
+	for i := 0; st != nil && i < st.NumFields(); i++ {
+		if namedType(st.Field(i).Type()) == prog.ModulePath+"/scanner.LexemeEventType" {
+			typeField = i
 		}
 	}
-	if nb != len(pairs) {
-		r.Bad("C12-PAIRS", "pair count", fmt.Sprintf("%d begin kinds but %d accepted pairs", nb, len(pairs)), c.P.Pos(d.Pos()))
+	consts := map[string]constant.Value{}
+	for _, n := range scanPk.Types.Scope().Names() {
+		if k, ok := scanPk.Types.Scope().Lookup(n).(*types.Const); ok && namedType(k.Type()) == prog.ModulePath+"/scanner.LexemeEventType" {
+			consts[k.Name()] = k.Val()
+		}
+	}
+	if typeField < 0 || len(consts) == 0 {
+		r.Undecided("C12-PAIRS", "processLexemeEvent", "event type field or constants not found", where)
+		return
+	}
+	// the event stack: the type of the Scanner field that holds LexemeEvents
+	isEventStackMethod := func(fn *ssa.Function) (pop, push bool) {
+		sig := fn.Signature
+		if sig.Recv() == nil {
+			return
+		}
+		rt := sig.Recv().Type()
+		if p, ok := rt.(*types.Pointer); ok {
+			rt = p.Elem()
+		}
+		sl, ok := rt.Underlying().(*types.Slice)
+		if !ok || !types.Identical(sl.Elem(), evT.Type()) {
+			return
+		}
+		if sig.Params().Len() == 0 && sig.Results().Len() == 1 && types.Identical(sig.Results().At(0).Type(), evT.Type()) && !strings.EqualFold(fn.Name(), "peek") {
+			pop = true
+		}
+		if sig.Params().Len() == 1 && sig.Results().Len() == 0 && types.Identical(sig.Params().At(0).Type(), evT.Type()) {
+			push = true
+		}
+		return
+	}
+	verdict := func(begin, end string) string {
+		ev := &ssaeval.Eval{MaxDepth: 6, MaxPaths: 256}
+		pops := 0
+		ev.Oracle = func(callee *ssa.Function, args []ssaeval.Value) (ssaeval.Value, bool) {
+			pop, push := isEventStackMethod(callee)
+			if pop {
+				pops++
+				return ssaeval.StructOf(map[int]ssaeval.Value{typeField: ssaeval.C(consts[begin])}), true
+			}
+			if push {
+				return ssaeval.Value{K: ssaeval.Tuple}, true
+			}
+			return ssaeval.Value{}, false
+		}
+		outs := ev.Run(sf, []ssaeval.Value{{K: ssaeval.NonNil}, ssaeval.StructOf(map[int]ssaeval.Value{typeField: ssaeval.C(consts[end])})})
+		acc, rej := 0, 0
+		for _, o := range outs {
+			if o.Incomplete != "" || o.Panics || len(o.Rets) != 2 {
+				return "undecided (" + o.Incomplete + ")"
+			}
+			lexNil, k1 := o.Rets[0].IsNilKnown()
+			errNil, k2 := o.Rets[1].IsNilKnown()
+			switch {
+			case k1 && k2 && !lexNil && errNil:
+				acc++
+			case k2 && !errNil:
+				rej++
+			default:
+				return fmt.Sprintf("undecided (returns %v, %v)", o.Rets[0], o.Rets[1])
+			}
+		}
+		if pops == 0 {
+			return "undecided (the begin event is not taken from the event stack)"
+		}
+		switch {
+		case acc > 0 && rej == 0:
+			return "lexeme"
+		case rej > 0 && acc == 0:
+			return "error"
+		}
+		return "undecided (both a lexeme and an error)"
+	}
+	var begins, ends []string
+	for ev, kind := range m.EventKinds {
+		if _, ok := consts[ev]; !ok {
+			continue
+		}
+		if strings.HasPrefix(kind, "begin:") {
+			begins = append(begins, ev)
+		}
+		if strings.HasPrefix(kind, "end:") {
+			ends = append(ends, ev)
+		}
+	}
+	sort.Strings(begins)
+	sort.Strings(ends)
+	for _, b := range begins {
+		kind := strings.TrimPrefix(m.EventKinds[b], "begin:")
+		bad := ""
+		paired := ""
+		for _, e := range ends {
+			want := "error"
+			if m.EventKinds[e] == "end:"+kind {
+				want = "lexeme"
+				paired = e
+			}
+			if got := verdict(b, e); got != want {
+				bad = fmt.Sprintf("with %s on the event stack, %s arriving gives %s, the model expects %s", b, e, got, want)
+			}
+		}
+		switch {
+		case bad != "":
+			r.Bad("C12-PAIRS", "pair "+b, bad, where)
+		case paired == "":
+			r.Bad("C12-PAIRS", "pair "+b, "no end event of kind "+kind, where)
+		default:
+			r.Ok("C12-PAIRS", "pair "+b, fmt.Sprintf("yields a lexeme with %s and an error with each of the other %d end kinds (abstract evaluation of processLexemeEvent)", paired, len(ends)-1), where)
+		}
+	}
+	if len(begins) == 0 {
+		r.Undecided("C12-PAIRS", "pairs", "no begin kinds in the event classification", where)
 	}
 }
 
